@@ -210,6 +210,14 @@ def check_refusals():
         (lambda: SubRecipe(hidden, (SVS("z"),), False), "MultiOutputSubRecipeUsedAsNonRootNodeError"),
         (lambda: Recipe((hidden, Step(SVS("s"), (Reference(hidden, 1),)))), "ok"),
     ]
+    from recipe_grid.recipe import Quantity as _Q, Proportion as _P
+    for qa, qb in ((_Q(100, "g"), _Q(100, "g", " ")), (_Q(100, "g"), _Q(100, "g", "", " of")), (_Q(100, "g"), _Q(100, "G")), (_Q(1, None), _Q(1.0, None, "", " of the"))):
+        root = SubRecipe(Ingredient(SVS("flour"), qa), (SVS("flour"),), False)
+        twin = SubRecipe(Ingredient(SVS("flour"), qb), (SVS("flour"),), False)
+        # the reference embeds a sub recipe that is written differently from the root it claims to point at: not that root
+        exp.append((lambda root=root, twin=twin: Recipe((root, Step(SVS("mix"), (Reference(twin),)))), "ok" if qa == qb and type(qa.value) is type(qb.value) and False else "ReferenceToInvalidSubRecipeError"))
+        exp.append((lambda root=root, twin=twin: Recipe((Step(SVS("mix"), (Reference(twin),)),), Recipe((root,))), "ReferenceToInvalidSubRecipeError"))
+        exp.append((lambda root=root: Recipe((root, Step(SVS("mix"), (Reference(root),)))), "ok"))
     for i, (f, want) in enumerate(exp):
         got = outcome(f)[0]
         if got != want:
